@@ -3,6 +3,18 @@
 // Contracts for package staged (comment-only; read by /verif/bin/govc, see /verif/DESIGN.md §2.3).
 package staged
 
+//@ // ---- C14 (flag level): the staged trigger is built from the flags as the user gave them
+//@ func Rate$1
+//@   props C14 C10
+//@   requires params != nil && GJclaim == 0 && G12claim == 0
+//@   ghost after call (*FlagSet).GetFloat64 : GFflt[arg1] = ret0
+//@   ghost after call (*FlagSet).GetDuration : GFdur[arg1] = ret0
+//@   ghost after call (*FlagSet).GetString : GFstr[arg1] = ret0
+//@   assert before call CalculateStagedRate : [flags-as-given] arg0 == GFflt["jitter"] && arg1 == GFdur["iterationFrequency"] && arg2 == GFstr["stages"] && arg3 == GFstr["distribution"]
+//@   ghost after call CalculateStagedRate : GFrates = ret0
+//@   ensures [runnable] result.1 == nil ==> result.0 != nil && result.0.Trigger != nil && result.0.DryRun != nil && result.0.Duration == GFrates.Duration
+//@   ensures [rejected] result.1 != nil ==> result.0 == nil
+//@
 //@ // ---- C14: stage strings are rejected or usable
 //@ func ParseStages
 //@   props C14
